@@ -1661,6 +1661,9 @@ static iwrc _fsm_reallocate(struct IWFS_FSM *f, off_t nlen, off_t *oaddr, off_t 
   uint64_t oaddr_blk = (uint64_t) *oaddr >> fsm->bpow;
   uint64_t naddr_blk = oaddr_blk;
 
+  if (nlen < 0) {
+    return IW_ERROR_INVALID_ARGS;
+  }
   if (nlen_blk == olen_blk) {
     return 0;
   }
@@ -1684,9 +1687,20 @@ static iwrc _fsm_reallocate(struct IWFS_FSM *f, off_t nlen, off_t *oaddr, off_t 
       *olen = nlen_blk << fsm->bpow;
     }
   } else {
+    // Refuse an old region that ends behind the bitmap or (strict mode) is not allocated before anything is taken for the new one
+    RCC(rc, finish, _fsm_set_bit_status_lw(fsm, oaddr_blk, olen_blk, 0,
+                                           FSM_BM_DRY_RUN | ((fsm->oflags & IWFSM_STRICT) ? FSM_BM_STRICT : 0)));
     RCC(rc, finish, _fsm_blk_allocate_lw(fsm, nlen_blk, &naddr_blk, &sp, opts));
-    if (naddr_blk != oaddr_blk) {
-      RCC(rc, finish, fsm->pool.copy(&fsm->pool, *oaddr, (size_t) *olen, naddr_blk << fsm->bpow));
+    if (IW_RANGES_OVERLAP(oaddr_blk, oaddr_blk + olen_blk, (fsm->bmoff >> fsm->bpow),
+                          (fsm->bmoff >> fsm->bpow) + (fsm->bmlen >> fsm->bpow))) {
+      // The allocation above has grown the bitmap and moved it into the "old region": that region was free
+      rc = IWFS_ERROR_FSM_SEGMENTATION;
+    } else if (naddr_blk != oaddr_blk) {
+      rc = fsm->pool.copy(&fsm->pool, *oaddr, (size_t) *olen, naddr_blk << fsm->bpow);
+    }
+    if (rc) { // The new region is not handed out: give it back
+      _fsm_blk_deallocate_lw(fsm, naddr_blk, sp);
+      goto finish;
     }
     RCC(rc, finish, _fsm_blk_deallocate_lw(fsm, oaddr_blk, olen_blk));
     *oaddr = naddr_blk << fsm->bpow;
